@@ -730,3 +730,25 @@ CORPUS += [
     V("C17", "val-loader-shuffled", "rl4co/models/rl/common/base.py", "return self._dataloader(self.val_dataset, self.val_batch_size)", "return self._dataloader(self.val_dataset, self.val_batch_size, True)", "C17.b"),
     V("C17", "eq-val-loader-explicit-false", "rl4co/models/rl/common/base.py", "return self._dataloader(self.val_dataset, self.val_batch_size)", "return self._dataloader(self.val_dataset, self.val_batch_size, shuffle=False)", None),
 ]
+
+# ---- C15 on the value graph; evaluation padding / regrouping
+CORPUS += [
+    V("C15", "dihedral-wrapper-takes-tail", TRF, "xy = xy[: xy.shape[0] // 8, ...] if reduce else xy", "xy = xy[xy.shape[0] // 8 :, ...] if reduce else xy", "C15.a"),
+    V("C15", "dihedral-wrapper-takes-quarter", TRF, "xy = xy[: xy.shape[0] // 8, ...] if reduce else xy", "xy = xy[: xy.shape[0] // 4, ...] if reduce else xy", "C15.a"),
+    V("C15", "eq-dihedral-wrapper-size-call", TRF, "xy = xy[: xy.shape[0] // 8, ...] if reduce else xy", "xy = xy[: xy.size(0) // 8] if reduce else xy", None),
+    V("C15", "symmetric-identity-block-half", TRF, "phi[: xy.shape[0] // num_augment] = 0.0", "phi[: xy.shape[0] // 2] = 0.0", "C15.b"),
+    V("C15", "symmetric-identity-on-tail", TRF, "phi[: xy.shape[0] // num_augment] = 0.0", "phi[xy.shape[0] // num_augment :] = 0.0", "C15.b"),
+    V("C15", "symmetric-identity-guard-inverted", TRF, "    if not first_augment:\n        phi", "    if first_augment:\n        phi", "C15.b"),
+    V("C15", "symmetric-x-twice", TRF, "x, y = xy[..., [0]], xy[..., [1]]", "x, y = xy[..., [0]], xy[..., [0]]", "C15.b"),
+    V("C15", "state-aug-other-count", TRF, "aug_feat = self.augmentation(td_aug[feat], self.num_augment)", "aug_feat = self.augmentation(td_aug[feat], self.num_augment + 1)", "C15.b"),
+    V("C15", "state-aug-written-to-first-feature", TRF, "            td_aug[feat] = aug_feat", "            td_aug[self.feats[0]] = aug_feat", "C15.b"),
+    V("C15", "eq-state-aug-alias", TRF, "        td_aug = batchify(td, self.num_augment)\n        for feat in self.feats:", "        out = batchify(td, self.num_augment)\n        td_aug = out\n        for feat in self.feats:", None),
+    V("C15", "aug-eval-reward-on-augmented", EVF, 'rewards = self.env.get_reward(batchify(td_init, num_augment), out["actions"])', 'rewards = self.env.get_reward(td, out["actions"])', "C15.c"),
+    V("C15", "aug-eval-clone-after-augmentation", EVF, '        td_init = td.clone()\n        td = self.augmentation(td)\n        out = policy(td.clone(), decode_type="greedy", num_starts=0)', '        td = self.augmentation(td)\n        td_init = td.clone()\n        out = policy(td.clone(), decode_type="greedy", num_starts=0)', "C15.c"),
+    V("C15", "eq-aug-eval-clone-alias", EVF, '        td_init = td.clone()\n        td = self.augmentation(td)\n        out = policy(td.clone(), decode_type="greedy", num_starts=0)', '        original = td.clone()\n        td_init = original\n        td = self.augmentation(td)\n        out = policy(td.clone(), decode_type="greedy", num_starts=0)', None),
+    V("C15", "aug-eval-instance-major-view", EVF, '        rewards = unbatchify(rewards, num_augment)\n        actions = unbatchify(out["actions"], num_augment)\n\n        # Get best reward', '        rewards = rewards.view(-1, num_augment)\n        actions = out["actions"].view(rewards.size(0), num_augment, -1)\n\n        # Get best reward', "C15.c"),
+    V("C15", "eval-pad-to-first-batch", EVF, "max_length = max(action.size(-1) for action in actions_list)", "max_length = actions_list[0].size(-1)", "C15.c"),
+    V("C17", "eval-pad-to-shortest", EVF, "max_length = max(action.size(-1) for action in actions_list)", "max_length = min(action.size(-1) for action in actions_list)", "C17.b"),
+    V("C17", "eval-pad-on-the-left", EVF, "(0, max_length - action.size(-1))", "(max_length - action.size(-1), 0)", "C17.b"),
+    V("C17", "eq-eval-pad-rename", EVF, "max_length = max(action.size(-1) for action in actions_list)", "max_length = max(a.size(-1) for a in actions_list)", None),
+]
